@@ -28,6 +28,9 @@ func worldC08(w *World) {
 		wait time.Duration
 	}
 	var script []step
+	// the first successful poll may hand out requests whose backend is slow: they
+	// complete in the background while later polls fail
+	withWork := t.Rare(1, 2, "withwork")
 	nRuns := t.Range(1, 4, "runs")
 	long := w.Tier == "thorough"
 	for r := 0; r < nRuns; r++ {
@@ -41,6 +44,9 @@ func worldC08(w *World) {
 			if k == "hang" && i > 3 {
 				k = "5xx" // keep simulated time per run bounded (each hang costs the 60 s client timeout)
 			}
+			if k == "refused" && withWork {
+				k = "5xx" // the one-shot refusal could hit a worker's dial instead of the poller's
+			}
 			script = append(script, step{kind: k})
 		}
 		ns := t.Range(1, 3, "successes")
@@ -49,6 +55,13 @@ func worldC08(w *World) {
 		}
 	}
 	fp := NewFakeProxy(w)
+	workIDs := []string{"w0", "w1", "w2"}
+	workDelay := map[string]time.Duration{}
+	for _, id := range workIDs {
+		workDelay[id] = []time.Duration{time.Second, 5 * time.Second, 20 * time.Second, 40 * time.Second}[t.Choice(4, "workdelay")]
+		fp.AddRequest(id, serialiseRequest("GET", "/r/"+id, "example.test", http.Header{"X-Token": {id}}, nil), "")
+	}
+	handedOut := false
 	refuseNext := &sim.NetFault{ToAddr: "proxy:80", ConnOrd: -1, Kind: sim.FaultRefuse, Once: true, Fired: 1}
 	w.K.Faults = append(w.K.Faults, refuseNext)
 	kinds := make([]string, 0, len(script)+2)
@@ -59,6 +72,11 @@ func worldC08(w *World) {
 		st := script[n]
 		switch st.kind {
 		case "ok":
+			if withWork && !handedOut {
+				handedOut = true
+				w.Probe("requests_in_flight_while_polls_fail")
+				return 200, jsonList(workIDs)
+			}
 			time.Sleep(st.wait)
 			return 200, []byte("[]")
 		case "5xx":
@@ -125,7 +143,8 @@ func worldC08(w *World) {
 		})}
 		srv.Serve(l)
 	})
-	startCountingBackend(w)
+	cb := startCountingBackend(w)
+	cb.Delay = func(tok string) time.Duration { return workDelay[tok] }
 	startAgent(w)
 	w.K.Spawn("controller", func() {
 		for {
